@@ -141,3 +141,7 @@ pub fn nohash(item: u64) -> u64 {
     use std::hash::BuildHasher;
     std::hash::BuildHasherDefault::<crate::superminhasher::NoHashHasher>::default().hash_one(&item)
 }
+
+/// environment stub: dropping an `anyhow::Error` walks its (symbolic-length) backtrace frames; errors are
+/// leaked instead (no property depends on freeing an error value)
+pub fn anyhow_drop_noop(_e: &mut ::anyhow::Error) {}
